@@ -32,10 +32,16 @@ const (
 )
 
 type faceOp struct {
-	Kind string   `json:"kind"` // query | set_variations | set_coords | set_ppem
+	Kind string   `json:"kind"` // query | set_variations | set_coords | set_ppem | burst
 	Face int      `json:"face"` // 0 or 1
 	GIDs []uint32 `json:"gids,omitempty"`
 	What int      `json:"what,omitempty"` // bit set of q* constants
+	// burst: N setter calls in one step, alternating between two settings and ending with the
+	// embedded one (call i of N uses the embedded setting when N-i is even, Alt otherwise).
+	// Setter "mixed": SetVariations(Vars) once, then N-1 SetPpem calls alternating likewise.
+	Setter string `json:"setter,omitempty"` // set_variations | set_coords | set_ppem | mixed
+	N      int    `json:"n,omitempty"`
+	Alt    *cfgOp `json:"alt,omitempty"`
 	cfgOp
 }
 
@@ -134,6 +140,17 @@ func (m *faceMachine) apply(op faceOp) {
 			m.t.Fatalf("infrastructure: coords of the wrong length in replayed case")
 		}
 		applyCfgOp(op.Kind, op.cfgOp, m.faces[k], &m.cfgs[k])
+	case "burst":
+		if op.Alt == nil || op.N < 1 {
+			m.t.Fatalf("infrastructure: incomplete burst in replayed case")
+		}
+		for _, cs := range [][]int16{op.Coords, op.Alt.Coords} {
+			if op.Setter == "set_coords" && len(cs) != 0 && len(cs) != len(m.pf.Axes) {
+				m.t.Fatalf("infrastructure: coords of the wrong length in replayed case")
+			}
+		}
+		burstSetters(op.Setter, op.N, op.cfgOp, *op.Alt, m.faces[k], &m.cfgs[k])
+		m.flags[burstLabel(op.N)] = true
 	case "query":
 		var got, want faceAnswers
 		pu := try(func() { got = ask(m.faces[k], op.GIDs, op.What) })
@@ -152,6 +169,48 @@ func (m *faceMachine) apply(op faceOp) {
 	default:
 		m.t.Fatalf("infrastructure: unknown op %q", op.Kind)
 	}
+}
+
+// burstSetters performs the N setter calls of a burst on the used face and leaves the model with
+// the settings of the last ones.
+func burstSetters(setter string, n int, last, alt cfgOp, f *font.Face, c *faceCfg) {
+	switch setter {
+	case "mixed":
+		applyCfgOp("set_variations", last, f, c)
+		for i := 2; i <= n; i++ {
+			if (n-i)%2 == 0 {
+				applyCfgOp("set_ppem", last, f, c)
+			} else {
+				applyCfgOp("set_ppem", alt, f, c)
+			}
+		}
+	default:
+		for i := 1; i <= n; i++ {
+			if (n-i)%2 == 0 {
+				applyCfgOp(setter, last, f, c)
+			} else {
+				applyCfgOp(setter, alt, f, c)
+			}
+		}
+	}
+}
+
+func drawSetterBurst(t *rapid.T, pf *poolFont) (setter string, last, alt cfgOp) {
+	setter = rapid.SampledFrom([]string{"set_variations", "set_variations", "set_coords", "set_ppem", "mixed", "mixed"}).Draw(t, "setter")
+	switch setter {
+	case "set_variations":
+		last.Vars, alt.Vars = drawVars(t, pf), drawVars(t, pf)
+	case "set_coords":
+		last.Coords, alt.Coords = drawCoords(t, pf), drawCoords(t, pf)
+	case "set_ppem":
+		last.PpemX, last.PpemY = drawPpem(t)
+		alt.PpemX, alt.PpemY = drawPpem(t)
+	default:
+		last.Vars = drawVars(t, pf)
+		last.PpemX, last.PpemY = drawPpem(t)
+		alt.PpemX, alt.PpemY = drawPpem(t)
+	}
+	return setter, last, alt
 }
 
 func (m *faceMachine) classify(op faceOp) {
@@ -242,9 +301,71 @@ func TestPropFace(t *testing.T) {
 			x, y := drawPpem(rt)
 			m.apply(faceOp{Kind: "set_ppem", Face: drawFaceIdx(rt), cfgOp: cfgOp{PpemX: x, PpemY: y}})
 		})
+		weighted(actions, "burst", 2, func(rt *rapid.T) {
+			// query, many settings changes in one step, the same query again
+			q := faceOp{Kind: "query", Face: drawFaceIdx(rt), GIDs: hot, What: qExtents | qHAdvance | qGlyphData}
+			if rapid.IntRange(0, 3).Draw(rt, "allQueries") == 0 {
+				q.What = qAll
+			}
+			m.apply(q)
+			setter, last, alt := drawSetterBurst(rt, pf)
+			m.apply(faceOp{Kind: "burst", Face: q.Face, Setter: setter, N: drawBurstN(rt, true), Alt: &alt, cfgOp: last})
+			m.apply(q)
+		})
 		rt.Repeat(actions)
 		m.finish()
 	})
+}
+
+// TestEnumFaceWrap walks every burst size deterministically: settings A, query, N setter calls
+// ending on settings B, the same query again (extents, advances, glyph data, metrics), for each
+// setter and a few variable fonts, so that the wrap-around points of any counter that stands in
+// for cache invalidation are visited in every run.
+func TestEnumFaceWrap(t *testing.T) {
+	fonts := []string{fRvrn, fHBTestVF, fSourceSansVF, fAdobeVF, fEstedad, fMada, fCommissioner}
+	setters := []string{"set_variations", "set_coords", "set_ppem", "mixed"}
+	shard, nshards := ev.Shard()
+	idx := 0
+	for _, file := range fonts {
+		pf := mustFont(t, fontRef{File: file})
+		gids := pf.GIDs
+		if len(gids) > 6 {
+			gids = append(append([]uint32{}, gids[:3]...), gids[len(gids)/2], gids[len(gids)-2], gids[len(gids)-1])
+		}
+		a0 := pf.Axes[0]
+		for _, setter := range setters {
+			for _, n := range burstAll() {
+				idx++
+				if idx%nshards != shard {
+					continue
+				}
+				m := newFaceMachine(t, pf.Ref)
+				var first, last, alt cfgOp
+				first.Vars = []varSetting{{Tag: a0.Tag.String(), Value: a0.Min}}
+				last.Vars = []varSetting{{Tag: a0.Tag.String(), Value: a0.Max}}
+				alt.Vars = []varSetting{{Tag: a0.Tag.String(), Value: a0.Def}}
+				first.Coords, last.Coords, alt.Coords = make([]int16, len(pf.Axes)), make([]int16, len(pf.Axes)), make([]int16, len(pf.Axes))
+				first.Coords[0], last.Coords[0], alt.Coords[0] = -16384, 16384, 8192
+				first.PpemX, first.PpemY, last.PpemX, last.PpemY, alt.PpemX, alt.PpemY = 12, 12, 96, 96, 20, 16
+				firstKind := setter
+				if setter == "mixed" || setter == "set_ppem" {
+					firstKind = "set_variations"
+				}
+				m.apply(faceOp{Kind: firstKind, cfgOp: first})
+				if setter == "set_ppem" {
+					m.apply(faceOp{Kind: "set_ppem", cfgOp: first})
+				}
+				q := faceOp{Kind: "query", GIDs: gids, What: qAll}
+				m.apply(q)
+				m.apply(faceOp{Kind: "query", Face: 1, GIDs: gids, What: qExtents}) // the sibling stays untouched
+				m.apply(faceOp{Kind: "burst", Setter: setter, N: n, Alt: &alt, cfgOp: last})
+				m.apply(q)
+				m.apply(faceOp{Kind: "query", Face: 1, GIDs: gids, What: qExtents})
+				m.finish()
+				ev.Label("face:enum_wrap_cases")
+			}
+		}
+	}
 }
 
 func replayFace(t *testing.T, raw json.RawMessage) {
